@@ -99,6 +99,7 @@ pub struct Ext {
     pub nested: HashMap<String, Uid>,
     pub lww_concurrent: bool,
     pub c11: Option<crate::c11::C11State>,
+    pub weak: crate::weak::WeakState,
     /// the author's own clock before its current local transaction
     pub clock_before: u32,
     pub lww_write_vs_remove: bool,
@@ -199,6 +200,9 @@ pub fn c07_events(w: &mut World, r: usize, v1: &[Vec<u8>], v2: &[Vec<u8>]) -> Re
 
 /// Records map writes / nested containers after a local transaction (C05), feeds twins (C15).
 pub fn after_txn(w: &mut World, r: usize, effects: &[Effect], _emitted: usize, _before: Option<String>) -> Result<(), Violation> {
+    if w.mon.c20 {
+        crate::weak::record(w, r, effects);
+    }
     if w.mon.c05 {
         let txn = w.reps[r].doc.transact();
         let integ = integrated_units(&yrs::verif::store_blocks(&txn));
@@ -1046,6 +1050,9 @@ pub fn observe_ext(w: &mut World, r: usize) -> Result<(), Violation> {
     if w.mon.c16 {
         check_delete_set(w, r)?;
     }
+    if w.mon.c20 {
+        crate::weak::check(w, r)?;
+    }
     if w.mon.c05 {
         check_lww(w, r)?;
     }
@@ -1217,7 +1224,7 @@ pub fn finish_ext(w: &mut World) -> Result<(), Violation> {
             }
         }
     }
-    if w.mon.c05 || w.mon.c06 || w.mon.c14 {
+    if w.mon.c05 || w.mon.c06 || w.mon.c14 || w.mon.c20 {
         // convergence of the final states (shared with C01) is part of these properties' statements
         let d0 = w.reps[0].dump();
         for r in 1..w.reps.len() {
@@ -1238,6 +1245,7 @@ pub fn nontrivial_ext(prop: &str, w: &World) -> bool {
         "C08" => w.cnt.get("c08_comparisons") > 0,
         "C11" => w.cnt.get("c11_events_applied") >= 3 && w.cnt.get("msgs_rebroadcast") > 0,
         "C13" => w.cnt.get("c13_restores") > 0,
+        "C20" => w.cnt.get("c20_dereferences_checked") > 0,
         "C14" => w.cnt.get("c14_resolutions_checked") > 0,
         "C16" => w.cnt.get("c16_delete_sets_checked") > 3 && w.cnt.get("op_seq_remove") + w.cnt.get("op_text_remove") + w.cnt.get("op_map_remove") + w.cnt.get("op_map_set") > 0,
         "C15" => w.cnt.get("c15_twin_comparisons") > 3 && w.cnt.get("op_seq_remove") + w.cnt.get("op_text_remove") + w.cnt.get("op_map_remove") + w.cnt.get("op_map_set") > 0,
